@@ -17,7 +17,7 @@ from common import run_driver
 from fractions import Fraction as F
 
 TRUSTED = [
-    'Lean 4.33.0 kernel; axioms of every theorem in Props/C01.lean within {propext, Classical.choice, Quot.sound}',
+    'Lean 4.33.0 kernel; axioms of every theorem in Props/C01*.lean within {propext, Classical.choice, Quot.sound}',
     'harness/sagemodel.py (instance generator, serialisation of the constraint object incl. the ids of its auxiliary Variables)',
     'Driver.lean / Drv/Sage.lean glue',
     'ECOS only in the audit stream (statuses other than solved are inconclusive; tolerances derived from residuals)',
